@@ -82,6 +82,7 @@ class Highlighter(object):
         buffer = ""
         current_type = None
         source_io = io.BytesIO(encode(source))
+        source_lines = source.split("\n")
 
         tokens = tokenize.tokenize(source_io.readline)
         line = ""
@@ -103,10 +104,6 @@ class Highlighter(object):
                 break
 
             if lineno > current_line:
-                diff = lineno - current_line
-                if diff > 1:
-                    lines += [""] * (diff - 1)
-
                 if previous_line[current_col:].strip() == "\\":
                     # The line is continued with a backslash, which is not a token
                     buffer += previous_line[current_col:].rstrip()
@@ -115,6 +112,13 @@ class Highlighter(object):
 
                 # New line
                 lines.append(line)
+
+                # Lines without any token (a lone continuation backslash)
+                # come after the line that has just been completed
+                for skipped_line in source_lines[current_line : lineno - 1]:
+                    lines.append(
+                        self._format_token(self.TOKEN_DEFAULT, skipped_line.rstrip())
+                    )
                 line = ""
                 current_line = lineno
                 current_col = 0
